@@ -71,7 +71,10 @@ BUDGET = {'quick': 4800, 'thorough': 60000}
 K_TOL = 512
 TOLERANCES = {
     'fenchel_young': 'f(x)+f*(y) >= <x,y> - 512*eps*n*(1+|f|+|f*|+sum '
-                     'w(|x||y|+|x|+|y|)), eps of the space dtype',
+                     'w(|x||y|+|x|+|y|)+C*(1+|x|+|y|)), eps of the space dtype, '
+                     'C = magnitude of the constants / vectors of the '
+                     'derivation rules (terms that may cancel); the same '
+                     'C term enters conj_value and biconj',
     'equality': '|f(x)+f*(y)-<x,y>| <= same tolerance (+ 1e-8*gap(y0) when '
                 'the sub-gradient had to be pulled inside dom f* by 1e-8, '
                 'bound from convexity of f*)',
@@ -417,6 +420,8 @@ def _check_node(B, pts, top, fd, ctx, probe=True):
     strata.append('conj:' + ('evaluable' if c_eval else
                              ('default' if default_conj else 'no-call')))
 
+    rscale = _ref_scale(ref)
+
     def scale_xy(xf, yf):
         return float(np.sum(geo.w * np.abs(xf) * np.abs(yf)))
 
@@ -425,7 +430,9 @@ def _check_node(B, pts, top, fd, ctx, probe=True):
         # derived functionals, e.g. f(x) - <s, x> of a Bregman distance)
         return K_TOL * eps * max(n, 1) * (
             1.0 + abs(fx) + abs(fcy) + scale_xy(xf, yf) +
-            float(np.sum(geo.w * (np.abs(xf) + np.abs(yf)))))
+            float(np.sum(geo.w * (np.abs(xf) + np.abs(yf)))) +
+            rscale * (1.0 + float(np.max(np.abs(xf))) +
+                      float(np.max(np.abs(yf)))))
 
     # candidate points ------------------------------------------------------
     xs = [xraw]
@@ -496,7 +503,8 @@ def _check_node(B, pts, top, fd, ctx, probe=True):
             return
         finite_hits[0] += 1
         t = K_TOL * eps * max(n, 1) * (
-            1.0 + abs(rv) + float(np.sum(geo.w * (np.abs(yf) + yf * yf))))
+            1.0 + abs(rv) + float(np.sum(geo.w * (np.abs(yf) + yf * yf))) +
+            rscale * (1.0 + float(np.max(np.abs(yf)))))
         # conditioning: the conjugate may be steep next to the boundary of
         # its domain; allow what an input perturbation of a few ulp does to
         # the reference
@@ -719,7 +727,8 @@ def _check_node(B, pts, top, fd, ctx, probe=True):
                     continue
                 finite_hits[0] += 1
                 t = K_TOL * eps * max(n, 1) * (
-                    1.0 + abs(a) + float(np.sum(geo.w * xf * xf)))
+                    1.0 + abs(a) + float(np.sum(geo.w * xf * xf)) +
+                    rscale * (1.0 + float(np.max(np.abs(xf)))))
                 if ref is not None and ref.value(xf) is not None:
                     # conditioning next to the boundary of dom f (see
                     # conj_vs_ref)
@@ -835,6 +844,28 @@ def _huber_prox_known(B):
                (b.region['huber'].startswith('vec') or
                 'array' in b.region['huber'])
                for b in B.nodes())
+
+
+def _ref_scale(ref):
+    """Magnitude of the constants and vectors hidden in a derived
+    functional (terms that may cancel in its value or in its conjugate)."""
+    if ref is None:
+        return 0.0
+    s = 0.0
+    w = ref.geo.w
+    if isinstance(ref, R.QuadPerturb):
+        s += abs(ref.c) + float(np.sum(w * np.abs(ref.u)))
+    elif isinstance(ref, R.Translation):
+        s += float(np.sum(w * np.abs(ref.t)))
+    elif isinstance(ref, R.ScalarSum):
+        s += abs(ref.c)
+    fac = 1.0
+    if isinstance(ref, (R.LeftScal, R.RightScal)):
+        fac = max(1.0, abs(ref.s), 1.0 / abs(ref.s))
+    for ch in ref.children():
+        if ch.geo is ref.geo:
+            s += fac * _ref_scale(ch)
+    return s
 
 
 def _sup_oracle(f, space, ye, start):
